@@ -55,6 +55,62 @@ claim('C10', 'Lean theorems for every body, position and replacement byte (XOR a
       'multi-part messages, lenient and strict.',
       FLOAT_NOTE, 'DESIGN.md §5 C10')
 
-for p in ['C02', 'C03', 'C04', 'C05', 'C07', 'C08', 'C09', 'C12', 'C13', 'C14', 'C15',
-          'C16', 'C17', 'C18', 'C19']:
+claim('C09', 'Lean theorems for every armored payload up to nine fragments (parse-after-render inverse, chunking and armoring lemmas) + differential execution over all payload lengths',
+      'C09_structure (the encoder output is exactly the rendering of n = ceil(len/max_len) fragments numbered 1..n of n '
+      'with common sequence id, chunks of the payload, fill bits on the last only, two-digit XOR checksum), C09_length '
+      '(<= 82 incl. CR LF), C09_head_checksum, C09_fill (alphabet, fill = padding to six bits, de-armoring gives the '
+      'bits back), C09_parse (every emitted sentence is accepted by the parser model and read back as written), '
+      'C09_accepted (one-shot assembly of the emitted sentences carries exactly the bits), C09_domain (every class '
+      '<= 1064 bits); max_len, MAX_FRAG_CNT, MAX_PAYLOAD_LEN regenerated from source; tie to encode.py/util.py by '
+      'differential execution on every payload length 1..200 (+ up to 540) x talkers x channels x fill, every bit '
+      'length 0..130, and encode_msg of all 35 classes; pyais output also checked against the property directly.',
+      FLOAT_NOTE, 'DESIGN.md §5 C09')
+
+claim('C12', 'Lean refinement theorem over unbounded histories (invariant induction; abstract tracker = finite map with override-merge) + exhaustive small-history differential execution',
+      'C12_refines: after any history of update/pop_track/cleanup/clock advances/TTL changes, ordered or unordered, the '
+      'model of AISTracker (dict in insertion order, cached oldest_timestamp, early-exit scan) holds exactly what the '
+      'abstract tracker holds (one track per MMSI, attributes = override-merge of accepted updates, last_updated); '
+      'C12_verdicts (acceptance = not older than own track / any track in ordered mode), C12_rejected_is_noop, '
+      'C12_latest_value, C12_one_track_per_mmsi; tie to tracker.py by running model and code on all histories of 3 '
+      'operations x modes x TTL and long random histories, comparing state, verdict and events after every operation.',
+      FLOAT_NOTE + 'Times/TTL are modelled as integers (exact arithmetic); the two float comparisons (t - ttl) < oldest and (t - lu) < ttl could differ at sub-ulp coincidences, which the model cannot exhibit. time.time() is replaced by a harness-controlled clock. msg_to_track projection is modelled through the decoded message (codec model) and the generated AISTrack field list.', 'DESIGN.md §5 C12')
+
+claim('C13', 'Lean theorem: expiry scan with cached lower bound removes exactly the stale tracks in every reachable state (invariants I1/I2) + differential execution with exact age = TTL ties',
+      'C13_cleanup / C13_update / C13_events / C13_none: in every reachable state, both modes, any TTL, cleanup() and '
+      'the expiry inside update() keep exactly the tracks with t - last_updated < TTL and fire DELETED exactly for '
+      'the others; with TTL None nothing expires. Proved from the invariants (cache is a lower bound; ordered dict '
+      'sorted) established by induction over histories.',
+      FLOAT_NOTE + 'Times/TTL are modelled as integers (exact arithmetic); the two float comparisons (t - ttl) < oldest and (t - lu) < ttl could differ at sub-ulp coincidences, which the model cannot exhibit. time.time() is replaced by a harness-controlled clock. msg_to_track projection is modelled through the decoded message (codec model) and the generated AISTrack field list.', 'DESIGN.md §5 C13')
+
+claim('C14', 'Lean theorem over all reachable states and all n >= 0 (sortedness invariants, stable-sort lemmas) + differential execution',
+      'C14: n_latest_tracks(n) returns min(n, #tracks) distinct tracks of the tracker, no track left out is newer than '
+      'one returned, unordered mode sorted newest first; for every reachable state of the model in both modes.',
+      FLOAT_NOTE + 'Times/TTL are modelled as integers (exact arithmetic); the two float comparisons (t - ttl) < oldest and (t - lu) < ttl could differ at sub-ulp coincidences, which the model cannot exhibit. time.time() is replaced by a harness-controlled clock. msg_to_track projection is modelled through the decoded message (codec model) and the generated AISTrack field list.', 'DESIGN.md §5 C14')
+
+claim('C15', 'Lean theorem: per-MMSI event sequence accepted by the life-cycle automaton for every history, final automaton state = membership + differential execution with callbacks',
+      'C15_lifecycle: for every history and MMSI the fired events form (CREATED UPDATED* DELETED)* (CREATED UPDATED*)? '
+      'and the automaton ends alive iff the MMSI has a track; C15_update_event, C15_pop_event, C15_rejected_silent.',
+      FLOAT_NOTE + 'Times/TTL are modelled as integers (exact arithmetic); the two float comparisons (t - ttl) < oldest and (t - lu) < ttl could differ at sub-ulp coincidences, which the model cannot exhibit. time.time() is replaced by a harness-controlled clock. msg_to_track projection is modelled through the decoded message (codec model) and the generated AISTrack field list.', 'DESIGN.md §5 C15')
+
+claim('C17', 'Lean theorems for any interleaving of any number of groups (projection lemma + one-group induction) + exhaustive small-schedule differential execution',
+      'C17_singletons, C17_independent (outputs at a group\'s positions depend only on that group\'s subsequence), C17 '
+      '(first sentence then tot-1 others in any order, interleaved with anything: nothing before the last sentence, '
+      'then the whole group once, in arrival order), C17_incomplete; about the model of TagBlockQueue.put_sentence; '
+      'tie to stream.py by differential execution on all interleavings of small group configurations and random '
+      'larger ones, directly and through IterMessages/NMEAQueue with tbq.',
+      FLOAT_NOTE + 'Group ids unique per group; tag block parsing (tb.init) is part of the model and of the tie.',
+      'DESIGN.md §5 C17')
+
+claim('C19', 'Lean theorems about the filter-chain model for every distance function (uninterpreted) + differential execution incl. truncated position reports',
+      'C19_exact (chain output = order-preserving subsequence of exactly the messages passing every filter), '
+      'C19_order (any permutation of the filters), C19_sublist, C19_mem, C19_distance (strict), C19_grid (closed), '
+      'messages without position pass the geographic filters; the great-circle distance is an uninterpreted '
+      'parameter. Tie to filter.py by differential execution of chains of 1-5 filters in all orders on decoded '
+      'messages of all kinds; haversine itself is compared with an independent formula (differential testing, '
+      'not proof).',
+      FLOAT_NOTE + 'Partial: numerical accuracy of haversine (libm) is not proved. Filters are modelled with fresh '
+      'filter objects (re-using one filter object in two chains leaves a stale next_filter; out of scope).',
+      'DESIGN.md §5 C19')
+
+for p in ['C02', 'C03', 'C04', 'C05', 'C07', 'C08', 'C16', 'C18']:
     PENDING[p] = 'check under construction in this commit (model exists, theorems and harness not yet registered); will be claimed at proof level'
